@@ -63,6 +63,25 @@ class Layout:
         if c < 0.76 and 'continuation-in-code' not in self.avoid:
             self.feats.add('continuation-in-code')
             return ['w = 1 + \\', '    2;']
+        if c < 0.80:
+            # macros are also *used* before the culprit: on one line, and as an invocation spread over several lines
+            # (line ends after the opening bracket, after a comma, inside an argument, before the closing bracket)
+            k = self._n()
+            if r.random() < 0.35:
+                self.feats.add('macro-use-one-line')
+                return ['#define US%d(a,b) (a + b)' % k, '#define UO%d 5' % k, 'u%d = US%d(1, UO%d) + UO%d;' % (k, k, k, k)]
+            shape = r.choice(['after-open', 'after-comma', 'inside-argument', 'before-close', 'several'])
+            self.feats.add('macro-use-multi-line:' + shape)
+            d = '#define UM%d(a,b) (a + b)' % k
+            if shape == 'after-open':
+                return [d, 'u%d = UM%d(' % (k, k), '    1, 2);']
+            if shape == 'after-comma':
+                return [d, 'u%d = UM%d(1,' % (k, k), '    2);']
+            if shape == 'inside-argument':
+                return [d, 'u%d = UM%d((1 +' % (k, k), '    3), 2);']
+            if shape == 'before-close':
+                return [d, 'u%d = UM%d(1, 2' % (k, k), '    );']
+            return [d, 'u%d = UM%d(' % (k, k), '    1,', '', '    (2 +', '    3)', ');']
         if c < 0.88:
             active = r.random() < 0.5
             self.feats.add('conditional-' + ('active' if active else 'inactive'))
